@@ -11,7 +11,11 @@ import (
 var corpusC11b = []string{`a==1`, `a == 1 or b == 2`, `(a==1)`, `a ==`, `(1 in foo[1]`, `any a as x { x == 1 }`}
 
 func H_C11_create() {
-	s := corpusC11b[vChoose(len(corpusC11b))]
+	nc := len(corpusC11b)
+	if vTier() == 0 {
+		nc = 3
+	}
+	s := corpusC11b[vChoose(nc)]
 	n := vUint64()
 	w := uint64(6)
 	if vTier() > 0 {
